@@ -259,7 +259,7 @@ let xisa_main () =
    The program goes through XConstProp.front (constant propagation + operator rewrites: what the code generator
    reads); for the named procedure the model generates the whole procedure (XCodegenStmt.cproc: prologue, body,
    exit label 0, epilogue, then the three peephole rewrites), with the procedure's frame symbols
-   (XCodegenExpr.frame_venv); body labels are numbered from 1.
+   (XCodegenExpr.frame_venv); body labels are numbered from 1; a global array is given as @name=<data word>.
    output:  "LDAM 2; BRZ L0; LDAC 0; L0:"   or "none" (outside the modelled fragment) or "front-error" *)
 let instr_str (i : XCodegenIsa.instr) : string =
   let open XCodegenIsa in
@@ -283,6 +283,7 @@ let xcg_main () =
           let kv = SL.map (fun s -> match SS.split_on_char '=' s with [k; v] -> (k, int_of_string v) | _ -> failwith "bad map") rest in
           let size = match SL.assoc_opt "size" kv with Some n -> n | None -> 0 in
           let gaddr (x : String.string) = match SL.assoc_opt (ocaml_string x) kv with Some a -> Some (zi a) | None -> None in
+          let aaddr (x : String.string) = match SL.assoc_opt ("@" ^ ocaml_string x) kv with Some a -> Some (zi a) | None -> None in
           let pool (v : BinNums.coq_Z) = match SL.assoc_opt (P.sprintf "#%d" (iz v)) kv with Some a -> Some (zi a) | None -> None in
           let og = match SL.assoc_opt "og" kv with Some n -> n | None -> size in
           (match SL.find_opt (fun q -> ocaml_string q.XAst.pname = pname) p.XAst.procs with
@@ -294,7 +295,7 @@ let xcg_main () =
                    | [] -> None
                    | r :: rest -> if ocaml_string r.XAst.pname = nm then Some { XCodegenStmt.pf_entry = zi (100000 + i); pf_isfunc = r.XAst.is_func } else find (i + 1) rest in
                  find 0 p.XAst.procs in
-               (match XCodegenStmt.cproc pinfo gaddr pool q (zi size) (zi og) with
+               (match XCodegenStmt.cproc pinfo gaddr aaddr pool q (zi size) (zi og) with
                 | Some code -> print_endline (SS.concat "; " (SL.map instr_str code))
                 | None -> print_endline "none"))
       | _, [] -> ()
@@ -303,6 +304,7 @@ let xcg_main () =
 
 (* ---------------------------------------------------------------- xmc: the whole-program model compile function
    hvmain xmc <prog.sx> <opt: 0|1>      stdin: one line per procedure:  <name> <size> <nslots> <og>
+                                        and optionally one line  pool <v1> <v2> ..  (the constant pool, in xcmp's order)
    XConstProp.front, then XCodegenProgram.model_compile frames opt (opt = 0: the validated image of the lowered
    code, the one C01_program_partial speaks of; opt = 1: with the peephole pass, xcmp's bytes).
    output: the image words in decimal separated by blanks, or "none" (outside the fragment / validation failed),
@@ -310,10 +312,11 @@ let xcg_main () =
 let xmc_main () =
   let prog = program_of (parse_sx (read_file Sys.argv.(2))) in
   let opt = Sys.argv.(3) = "1" in
-  let tbl = ref [] in
+  let tbl = ref [] and poolv = ref [] in
   (try while true do
      let line = input_line stdin in
      match tokens line with
+     | "pool" :: vs -> poolv := SL.map int_of_string vs
      | [nm; a; b; c] -> tbl := (nm, (int_of_string a, int_of_string b, int_of_string c)) :: !tbl
      | _ -> ()
    done with End_of_file -> ());
@@ -323,7 +326,7 @@ let xmc_main () =
     | None -> None in
   match XConstProp.front prog with
   | XConstProp.COk p ->
-      (match XCodegenProgram.model_compile frames opt p with
+      (match XCodegenProgram.model_compile { XCodegenProgram.p_frames = frames; p_pool = SL.map zi !poolv } opt p with
        | Some ws -> print_endline (SS.concat " " (SL.map (fun w -> P.sprintf "%d" (iz w)) ws))
        | None -> print_endline "none")
   | _ -> print_endline "front-error"
